@@ -91,6 +91,8 @@ def model_to_json(model):
     out = {}
     if model is None:
         return out
+    if isinstance(model, dict):
+        return model
     for d in model.decls():
         try:
             out[d.name()] = str(model[d])[:300]
@@ -124,6 +126,10 @@ def main(argv):
     ex.vacuity = []
     functions = []
     # ---- generate obligations from the real code
+    only = os.environ.get("PYVC_ONLY")
+    if only:
+        P.verify = [c for c in P.verify if only in c.qual + (c.variant or "")]
+        P.lemmas = []
     for c in P.verify:
         try:
             owner, m, fn = front.find_function(c.qual)
@@ -167,12 +173,7 @@ def main(argv):
         else:
             seen[o.name] = 0
     # ---- discharge
-    for o in obligs:
-        try:
-            solve.discharge(o, P.axioms, tier)
-        except z3.Z3Exception as e:
-            o.result = "unknown"
-            o.reason = f"z3 exception {e}"
+    solve.discharge_all(obligs, P.axioms, tier)
     if tier == "thorough":
         for o in obligs:
             if o.result == "discharged" and o.backend == "z3":
@@ -206,9 +207,9 @@ def main(argv):
         if o.kind in ("post", "inv-pres"):
             by_fn.setdefault((o.name.split("@")[0].rsplit(".", 1)[0], o.name.split("@")[-1]), o)
     for (tag, sig), o in by_fn.items():
-        r, dt, model, reason = solve.check_z3(P.axioms, o.assumptions, z3.BoolVal(False), 1500)
+        r, dt, model, reason = solve.check_z3(P.axioms, o.assumptions, z3.BoolVal(False), 400 if tier == "quick" else 3000)
         canaries.append({"path": tag + "@" + sig, "false_goal": {"sat": "refuted (good)", "unsat": "VERIFIED: PATH ASSUMPTIONS CONTRADICTORY",
-                                                                   "unknown": "not provable within 1.5 s (good)"}.get(r, r)})
+                                                                   "unknown": "not provable within budget (good)"}.get(r, r)})
         if r == "unsat":
             faults.append(f"contradictory assumptions on path {tag}@{sig} (false goal verifies)")
     # ---- syntactic wiring checks over the real AST
